@@ -16,7 +16,9 @@ def run(tier, seed):
     rnd = random.Random(seed)
     scal = [k for k in protocommon.ALL_KINDS if not k.startswith("m")]
     sub = sorted(rnd.sample(scal, 3 if thorough else 2) + rnd.sample(["m1", "m2", "m3", "m4"], 2 if thorough else 1))
-    two = {"MaxFields": 2, "GenKinds": protocommon.tla_set(sub), "TagNumbers": "{0, 300}"}
+    # the rewriter tracks the fields it has seen in a bitmap of 64-bit words (256 bits preallocated): explicit numbers around those sizes
+    big = rnd.choice([255, 256, 300, 320])
+    two = {"MaxFields": 2, "GenKinds": protocommon.tla_set(sub), "TagNumbers": "{0, %d}" % big}
     mc2 = vlib.must_hold(vlib.tlc("ProtoRewrite", "MC_ProtoRewrite.cfg", workers=vlib.NCPU, defines=two, tag="ProtoRewrite-mc2",
                                   timeout=3000), "ProtoRewrite theorems (2 fields, kinds %s)" % sub)
     ck.add_mc(mc2, "MC_ProtoRewrite(2 fields)")
@@ -28,6 +30,7 @@ def run(tier, seed):
                                      tag="ProtoRewrite-gen2", timeout=3000), "generation (2 fields)")
         ck.add_mc(g2, "Gen_ProtoRewrite(2 fields, kinds %s)" % ",".join(sub))
     ck.notes["kinds_subset"] = sub
+    ck.notes["two_field_numbers"] = [0, big]
     kept, total = vlib.cap_vectors(vec, 400000 if thorough else 40000, seed, keep_first=g1.vectors)
     ck.notes["vectors_generated"], ck.notes["vectors_replayed"] = total, kept
     ck.binary = vlib.build_harness()
